@@ -243,6 +243,20 @@ impl System {
     #[instrument(skip_all, name = "trace_shutdown")]
     pub async fn shutdown(&mut self) -> Result<(), IggyError> {
         self.persist_messages().await?;
+        // With the no-wait confirmation the messages above have only been handed to the background persisters:
+        // wait for them, the process is about to exit.
+        for stream in self.streams.values() {
+            for topic in stream.get_topics() {
+                for partition in topic.get_partitions() {
+                    let mut partition = partition.write().await;
+                    for segment in partition.get_segments_mut() {
+                        if !segment.is_closed {
+                            segment.shutdown_writing_and_wait().await;
+                        }
+                    }
+                }
+            }
+        }
         Ok(())
     }
 
